@@ -34,10 +34,15 @@ type linSpec[S comparable] struct {
 	Accept func(s S) bool
 	// Match reports whether a model output equals an observed one.
 	Match func(emitted any, obs *linObs) bool
+	// Inert, if set, reports that op changes nothing and emits nothing in s
+	// and in every state reachable from s. Such an operation commutes with
+	// everything, so the search places it as early as possible instead of
+	// branching over its position.
+	Inert func(s S, op *linOp) bool
 }
 
 type linKey[S comparable] struct {
-	done [2]uint64
+	done [4]uint64
 	s    S
 	oi   int
 }
@@ -53,16 +58,16 @@ type linResult[S comparable] struct {
 	Nodes     int
 }
 
-// linCheck searches for a linearization. len(ops) must be <= 128.
+// linCheck searches for a linearization. len(ops) must be <= 256.
 func linCheck[S comparable](spec linSpec[S], ops []*linOp, obs []*linObs, budget int) linResult[S] {
 	n := len(ops)
 	res := linResult[S]{}
-	if n > 128 {
+	if n > 256 {
 		res.Exhausted = true
 		return res
 	}
 	seen := map[linKey[S]]bool{}
-	var done [2]uint64
+	var done [4]uint64
 	isDone := func(i int) bool { return done[i>>6]&(1<<(uint(i)&63)) != 0 }
 	order := make([]int, 0, n)
 	var dfs func(s S, oi int, ndone int) bool
@@ -94,6 +99,21 @@ func linCheck[S comparable](spec linSpec[S], ops []*linOp, obs []*linObs, budget
 		for i := 0; i < n; i++ {
 			if !isDone(i) && ops[i].Ret < minRet {
 				minRet = ops[i].Ret
+			}
+		}
+		if spec.Inert != nil {
+			for i := 0; i < n; i++ {
+				if isDone(i) || ops[i].Call > minRet || !spec.Inert(s, ops[i]) {
+					continue
+				}
+				done[i>>6] |= 1 << (uint(i) & 63)
+				order = append(order, i)
+				ok := dfs(s, oi, ndone+1)
+				if !ok {
+					order = order[:len(order)-1]
+					done[i>>6] &^= 1 << (uint(i) & 63)
+				}
+				return ok
 			}
 		}
 		for i := 0; i < n; i++ {
